@@ -122,7 +122,13 @@ class Model:
 
     # ------------------------------------------------------------------
     def new(self, interp, term, unit, dtype, taint=False, why='') -> SVar:
-        return interp.track(SVar(term, unit, dtype, taint=taint, why=why))
+        v = interp.track(SVar(term, unit, dtype, taint=taint, why=why))
+        if self.narrow_log is not None and dtype == 'float32' and term is not None:
+            # every single-precision intermediate, for the magnitude analysis (sa/magnitude.py)
+            self.narrow_log.append((v, interp.where(interp.cur_node) if interp.cur_node is not None else '?'))
+        return v
+
+    narrow_log = None
 
     _seq = 0
 
